@@ -248,6 +248,10 @@ func (x *tr) loopEnter(s ast.Stmt) string {
 			if !ok {
 				ts = deflt
 			}
+			if ts == "" && x.t.LoopAny { // ext_chain.go: an opaque element (used through <range>.Method actions)
+				x.vars[id.Name] = "ptr:?"
+				return
+			}
 			if ts == "" {
 				fail("range variable %s: no RangeVars entry", id.Name)
 			}
@@ -280,7 +284,7 @@ func (x *tr) loopEnter(s ast.Stmt) string {
 	l.carried = nil
 	for n := range as {
 		t, ok := x.vars[n]
-		if !ok || !(isBasic(t)) {
+		if !ok || !(isBasic(t) || t == "iface") { // "iface": object references (ext_chain.go)
 			continue // declared inside the body, or not a scalar (strings, pointers: not part of the decision)
 		}
 		l.carried = append(l.carried, n)
